@@ -644,6 +644,29 @@ func init() {
 		}
 		return iface{}
 	})
+	reg(vrtPkg+"EnumValues", func(fr *frame, a []value) value {
+		pkgPath := mustGoString(fr, a[0], "EnumValues")
+		typeName := mustGoString(fr, a[1], "EnumValues")
+		var out []value
+		for _, p := range fr.i.prog.AllPackages() {
+			if p.Pkg.Path() != pkgPath {
+				continue
+			}
+			var names []string
+			for n := range p.Members {
+				names = append(names, n)
+			}
+			sort.Strings(names)
+			for _, n := range names {
+				if c, ok := p.Members[n].(*ssa.NamedConst); ok {
+					if nt, ok := c.Type().(*types.Named); ok && nt.Obj().Name() == typeName {
+						out = append(out, c.Value.Int64())
+					}
+				}
+			}
+		}
+		return out
+	})
 	reg(vrtPkg+"Freeze", func(fr *frame, a []value) value {
 		fr.i.px.freeze(a[0].([]value))
 		return nil
